@@ -577,7 +577,7 @@ func (c *Ctx) c31Pairing(pk *packages.Package, f *c31Fn) {
 		}
 		return true
 	})
-	min := map[string]int{"runTest": 34, "utBlock": 4, "utReadAllOut": 2, "utReadAllErr": 2}[fn]
+	min := map[string]int{"runTest": 26, "utBlock": 4, "utReadAllOut": 2, "utReadAllErr": 2}[fn]
 	c.MinCount("R31b", "report calls in "+fn, nRep, min)
 
 	// the verdict is only ever assigned false
@@ -812,7 +812,7 @@ func (c *Ctx) c31Polarity(pk *packages.Package, f *c31Fn) {
 		}
 		return true
 	})
-	min := map[string]int{"runTest": 16, "utBlock": 3, "utReadAllOut": 1, "utReadAllErr": 2}[fn]
+	min := map[string]int{"runTest": 12, "utBlock": 3, "utReadAllOut": 1, "utReadAllErr": 2}[fn]
 	c.MinCount("R31d", "verdict=false sites in "+fn, n, min)
 }
 
@@ -929,7 +929,7 @@ func (c *Ctx) c31Streams(pk *packages.Package, f *c31Fn) {
 			c.OK("R31c", key, is.Pos(), "%s* assertion looks at %s data only", want, strings.ToLower(want))
 		}
 	}
-	c.MinCount("R31c", "stream assertion statements in runTest", n, 13)
+	c.MinCount("R31c", "stream assertion statements in runTest", n, 10)
 }
 
 // ---------------------------------------------------------------- R31e
